@@ -87,6 +87,13 @@ def docPathB : St → List St → Bool
     (e != cur) && (e != .none) && (cur != .none || e == .starting) && (cur != .permanent || e == .stopping) &&
     (cur != .fatal) && (cur != .stopped) && docPathB e es
 
+/-- every `OK` in the sequence is immediately preceded by `Starting` (`prev` = status before the
+first event): what must hold of an instance whose only source of `OK` is the automatic
+`ReportOKIfStarting` -/
+def okPred : St → List St → Bool
+  | _, [] => true
+  | prev, e :: es => (e != .ok || prev == .starting) && okPred e es
+
 /-! ## the service's automatic reports around a component's life (graph.go `StartAll` / `ShutdownAll`,
 extensions.go `Start` / `Shutdown`) interleaved with the component's own reports -/
 
